@@ -11,6 +11,6 @@ CONSTANTS
   CopyInvalidVerbatim = TRUE
   UintIDWraps = TRUE
   EmitLines = FALSE
-INVARIANTS TypeOK ThmAccepted ThmValidUtf8 ThmDecodes ThmRuneAtIsRef ThmNoSilentWrap ThmRoundTripCloses ThmNonFinite ThmRanges
+INVARIANTS TypeOK ThmAccepted ThmValidUtf8 ThmDecodes ThmRuneAtIsRef ThmNoSilentWrap ThmRoundTripCloses ThmNonFinite
 ACTION_CONSTRAINT Emit
 CHECK_DEADLOCK FALSE
